@@ -5,6 +5,7 @@ package c18
 import (
 	"context"
 	"fmt"
+	"io/ioutil"
 	"os"
 	"runtime"
 	"runtime/pprof"
@@ -631,14 +632,14 @@ func (s *repoStatSvc) PinLs(ctx context.Context, in string, out *map[string]api.
 	return nil
 }
 
-const ruleShutdown = "shutdown while in use: disk and numpin informers (GetMetric in 1-3 goroutines || Shutdown), a CRDT replica with batching (LogPin/LogUnpin in 1-3 goroutines || Shutdown), a Cluster (Pin/Pins/StatusLocal/Alerts in 1-3 goroutines || Shutdown), a Cluster that is still booting (reads || Shutdown at once or the moment Ready() fires), a stateless tracker (Track/Status || Shutdown); the shutdown happens after a drawn number of operations; oracle: race detector silent, no panic, everything returns within the watchdog; non-trivial = always; distinct by component + parameters"
+const ruleShutdown = "shutdown while in use: disk and numpin informers (GetMetric in 1-3 goroutines || Shutdown; also with an IPFS request that hangs until the peer cancels it), a single-member Raft consensus (LogPin/LogUnpin || Shutdown), a CRDT replica with batching (LogPin/LogUnpin in 1-3 goroutines || Shutdown), a Cluster (Pin/Pins/StatusLocal/Alerts in 1-3 goroutines || Shutdown), a Cluster that is still booting (reads || Shutdown at once or the moment Ready() fires), a stateless tracker (Track/Status || Shutdown); the shutdown happens after a drawn number of operations; oracle: race detector silent, no panic, everything returns within the watchdog; non-trivial = always; distinct by component + parameters"
 
 func TestShutdownMix(t *testing.T) {
 	leg := ev.L("shutdown-mix", ruleShutdown)
 	caseN := 0
 	rapid.Check(t, func(t *rapid.T) {
 		caseN++
-		comp := rapid.SampledFrom([]string{"disk", "numpin", "disk-slow-ipfs", "numpin-slow-ipfs", "crdt", "cluster", "cluster-boot", "tracker"}).Draw(t, "component")
+		comp := rapid.SampledFrom([]string{"disk", "numpin", "disk-slow-ipfs", "numpin-slow-ipfs", "crdt", "raft", "cluster", "cluster-boot", "tracker"}).Draw(t, "component")
 		users := rapid.IntRange(1, 3).Draw(t, "users")
 		after := rapid.IntRange(0, 30).Draw(t, "shutdownAfter")
 		var opCount int64
@@ -726,6 +727,30 @@ func TestShutdownMix(t *testing.T) {
 			}
 			shutdown = func() { r.Cons.Shutdown(ctx) }
 			cleanup = func() { r.H.Close() }
+		case "raft":
+			// a single-member Raft peer: operations keep arriving at the leader
+			// while it shuts down; each must return (acknowledged or refused)
+			dir, err := ioutil.TempDir("", "c18-raft-")
+			if err != nil {
+				t.Fatal(err)
+			}
+			rp := fakes.NewRaftHost(gen.PeerKeys[8], dir)
+			rp.Init = []peer.ID{rp.H.ID()}
+			if err := rp.Start(false); err != nil {
+				t.Fatalf("VERIF-INFRA: raft peer: %v", err)
+			}
+			if err := rp.WaitReady(30 * time.Second); err != nil {
+				t.Fatalf("VERIF-INFRA: %v", err)
+			}
+			use = func(i int) {
+				if i%3 == 2 {
+					rp.Cons.LogUnpin(ctx, api.PinCid(gen.Cids[i%3]))
+				} else {
+					rp.Cons.LogPin(ctx, api.PinCid(gen.Cids[i%3]))
+				}
+			}
+			shutdown = func() { rp.Stop() }
+			cleanup = func() { rp.H.Close(); os.RemoveAll(dir) }
 		case "cluster":
 			f := fakes.NewCluster(fakes.ClusterOpts{Key: gen.PeerKeys[4]})
 			f.S.SetPeers([]peer.ID{f.ID})
